@@ -236,6 +236,10 @@ func scheduleUnmanageHAProxyGlobal() {
 }
 
 func unmanageGlobalVoided() {
+	if isManagingAll() {
+		log.Debug().Msg("all traffic is managed again, keeping it")
+		return
+	}
 	err := unmanageGlobal()
 	if err != nil {
 		log.Error().Err(err).Msg("Failed to unmanage global")
